@@ -14,6 +14,12 @@ let parse_script (s : string) : Datatypes.nat option list =
 let parse_obj (w : string) : Objects.obj =
   match w.[0] with
   | 'a' -> Objects.OAtomic (n_of_string (String.sub w 1 (String.length w - 1)), [])
+  | 'm' -> SyncOps.mutex_new
+  | 'w' -> SyncOps.rwlock_new
+  | 's' ->
+    (match String.split_on_char ':' (String.sub w 1 (String.length w - 1)) with
+     | [n; f] -> SyncOps.semaphore_new (n_of_string n) (f = "f") [BinNums.N0]
+     | _ -> failwith "bad semaphore spec")
   | _ -> failwith ("bad object " ^ w)
 
 let parse_aop (ws : string list) : Atomic.aop =
@@ -46,6 +52,22 @@ let parse_op (w : string) : Prog.op =
   | "rn" -> Prog.PRand
   | "rs" -> Prog.PResetSteps
   | "pn" -> Prog.PPanic
+  | "sa" | "st" | "sr" ->
+    (match String.split_on_char '.' (String.sub w 2 (String.length w - 2)) with
+     | [o; n] ->
+       let o = nat_of_int (int_of_string o) and n = n_of_string n in
+       if pre = "sa" then Prog.PSemAcq (o, n) else if pre = "st" then Prog.PSemTry (o, n) else Prog.PSemRel (o, n)
+     | _ -> failwith "bad semaphore op")
+  | "sc" -> Prog.PSemClose (num_after w 2)
+  | "sv" -> Prog.PSemAvail (num_after w 2)
+  | "lk" -> Prog.PLock (num_after w 2)
+  | "tl" -> Prog.PTryLock (num_after w 2)
+  | "ul" -> Prog.PUnlock (num_after w 2)
+  | "rd" -> Prog.PRwLock (num_after w 2, false)
+  | "wr" -> Prog.PRwLock (num_after w 2, true)
+  | "tr" -> Prog.PRwTry (num_after w 2, false)
+  | "tw" -> Prog.PRwTry (num_after w 2, true)
+  | "ru" -> Prog.PRwUnlock (num_after w 2)
   | _ ->
     if w.[0] = 'a' then
       (match String.split_on_char '.' w with
